@@ -292,6 +292,7 @@ struct Hazards
    bool svsetAddKeys0 = false;        // SVSetBase::add(keys[], svec[], 0) loops ~2^32 times
    bool classSetShrink = false;       // ClassSet::reMax(newmax < max()) writes max() items into newmax slots
    bool xtendLastStale = false;       // SVSetBase::xtend(last vector) can reallocate the nonzero memory without pointer fix-up
+   bool a2pShortOverflow = false;     // SSVectorBase::assign2productShort writes idx[dim] when the index memory has exactly dim entries
    bool probed = false;
 };
 Hazards& hazards();
